@@ -732,9 +732,8 @@ fn exist_of(c: &CommitmentProof) -> Option<&ExistenceProof> {
 /// The amount the client may report for this answer, or None if the answer does not carry a
 /// chain linking the key (and value / absence) to `app_hash`.
 fn oracle_allows(w: &World, key: &[u8], resp: &RawAbciQueryResponse, app_hash: &[u8]) -> Option<u64> {
-    if resp.code != 0 {
-        return None;
-    }
+    // (the response code is not part of the proof chain: a non-zero code with a linking chain
+    // may be refused by the client, but accepting it would not contradict the statement)
     let ops = &resp.proof_ops.as_ref()?.ops;
     if ops.len() != 2 || ops[0].key != key || ops[1].key != b"bank" {
         return None;
